@@ -62,6 +62,9 @@ def check_edge_sync(b, steps) -> List[str]:
                 _do(orig, st, b.ctl)
     except (Exception, rt.Diverged):
         return []   # the path itself failed: not a quiescent resume point
+    # a nested, mutable context value that some later action updates IN PLACE (no modelled action touches it)
+    if isinstance(orig.context, dict):
+        orig.context["__nest__"] = {"l": [0], "d": {"x": 1}}
     snap = orig.get_snapshot()
     try:
         parsed = json.loads(snap)
@@ -69,6 +72,9 @@ def check_edge_sync(b, steps) -> List[str]:
         return ["not_json"]
     persisted = orig.get_persisted_snapshot()
     frozen = copy.deepcopy(persisted)
+    if isinstance(orig.context, dict) and isinstance(orig.context.get("__nest__"), dict):
+        orig.context["__nest__"]["l"].append(1)          # later execution, in place
+        orig.context["__nest__"]["d"]["y"] = 2
     ctl2 = rt.Ctl()
     try:
         restored = rt.TracedSync.from_snapshot(snap, b.machine)
@@ -150,6 +156,9 @@ async def _check_edge_async(b, steps) -> List[str]:
     t = orig._event_loop_task
     if t is not None and t.done() and not t.cancelled() and t.exception() is not None:
         return []
+    # a nested, mutable context value that some later action updates IN PLACE (no modelled action touches it)
+    if isinstance(orig.context, dict):
+        orig.context["__nest__"] = {"l": [0], "d": {"x": 1}}
     snap = orig.get_snapshot()
     try:
         json.loads(snap)
@@ -157,6 +166,9 @@ async def _check_edge_async(b, steps) -> List[str]:
         return ["not_json"]
     persisted = orig.get_persisted_snapshot()
     frozen = copy.deepcopy(persisted)
+    if isinstance(orig.context, dict) and isinstance(orig.context.get("__nest__"), dict):
+        orig.context["__nest__"]["l"].append(1)          # later execution, in place
+        orig.context["__nest__"]["d"]["y"] = 2
     try:
         restored = rt.TracedAsync.from_snapshot(snap, b.machine)
     except Exception as ex:
